@@ -16,7 +16,7 @@
    sub-stacks (aliasing) through every method of the four emitter kinds and compares the
    receivers with the model; the generated-code harness records every event of every
    execution and applies exactly the statements above. Parallel's events: C10. *)
-From CffVerif Require Import EmitterModel EmitterProofs FlowOpModel FlowOpProofs FlowEventProofs.
+From CffVerif Require Import EmitterModel EmitterProofs EmitterSessionModel EmitterSessionProofs FlowOpModel FlowOpProofs FlowEventProofs.
 
 Theorem C18_stack_fanout : forall t, deliver (build t) = leaves t.
 Proof. exact deliver_build. Qed.
@@ -32,6 +32,37 @@ Theorem C18_stack_count :
     received (build t) evs i = flat_map (fun e => repeat e (count_occ Nat.eq_dec (leaves t) i)) evs.
 Proof. intros E. exact (@received_count E). Qed.
 Print Assumptions C18_stack_count.
+
+(* (1b) Init methods and child stacks (EmitterSessionModel): over every session of Init calls
+   and method calls on the children they returned, a user emitter occurring once in the
+   expression sees what it would see used alone (C18_session_alone), which for a session
+   that uses a child only after creating it is the session itself, child for child
+   (C18_session_sees_itself); an emitter outside the expression sees nothing and no call
+   reaches anything but an emitter of the expression (C18_session_absent,
+   C18_session_only_members). Tie: cmd/emsession (real EmitterStack sessions, recorders
+   numbering their own children) vs `session` evaluated inside Coq. *)
+Theorem C18_session_alone :
+  forall (E : Type) t (ops : list (sop E)) i, count_occ Nat.eq_dec (leaves t) i = 1 ->
+    sees i (session (build t) ops) = sees i (session (VOne (ALeaf i)) ops).
+Proof. intros E. exact (@session_alone E). Qed.
+Print Assumptions C18_session_alone.
+
+Theorem C18_session_sees_itself :
+  forall (E : Type) t (ops : list (sop E)) i, count_occ Nat.eq_dec (leaves t) i = 1 -> swf 0 ops = true ->
+    sees i (session (build t) ops) = ops.
+Proof. intros E. exact (@session_sees_itself E). Qed.
+Print Assumptions C18_session_sees_itself.
+
+Theorem C18_session_absent :
+  forall (E : Type) t (ops : list (sop E)) i, count_occ Nat.eq_dec (leaves t) i = 0 ->
+    sees i (session (build t) ops) = [].
+Proof. intros E. exact (@session_absent E). Qed.
+Print Assumptions C18_session_absent.
+
+Theorem C18_session_only_members :
+  forall (E : Type) t (ops : list (sop E)) i o, In (i, o) (session (build t) ops) -> In i (leaves t).
+Proof. intros E. exact (@session_inits E). Qed.
+Print Assumptions C18_session_only_members.
 
 Theorem C18_task_invoked :
   forall f sc e k ef, unique_providers f -> reach f sc e -> In (FT k, ef) (xlog e) ->
